@@ -123,7 +123,7 @@ claim("C12", "proof",
       "numVarDataFields for 4 pairs, blockLength at offset 0 / numInGroup at offset 8 for 2, numInGroup declared before "
       "blockLength for 2; flat and nested groups), the case lines carry the composite (types, shape, size, member offsets) "
       "and the header bytes built from the schema's member offsets; iterator expressions to depth 3 "
-      "over boundary sizes/block lengths, checks on and off, UBSan build, for every composite. SOURCE TRANSLATOR (harness/srcexprs.py -> coq/SrcExprs.v, regenerated on every run from clang's typed AST of /repo's random_access_iterator instantiated at all 16 header type pairs): operator+=, operator-(rhs), operator++ (with its expanded SBEPP_SIZE_CHECK) and operator-- are proved equal to GroupIter.it_add_assign / it_diff / it_inc / it_dec for all arguments; += moves the pointer by exactly n x blockLength and the index by n; ++ reports exactly when the entry block leaves [ptr, end) (C12_source_* theorems, 7).",
+      "over boundary sizes/block lengths, checks on and off, UBSan build, for every composite. SOURCE TRANSLATOR (harness/srcexprs.py -> coq/SrcExprs.v, regenerated on every run from clang's typed AST of /repo's random_access_iterator instantiated at all 16 header type pairs): operator+=, operator-(rhs), operator++ (with its expanded SBEPP_SIZE_CHECK) and operator-- are proved equal to GroupIter.it_add_assign / it_diff / it_inc / it_dec for all arguments; += moves the pointer by exactly n x blockLength and the index by n; ++ reports exactly when the entry block leaves [ptr, end); the six comparison operators (friend functions) compare the indices mathematically (C12_source_* theorems, 8).",
       TB + " difference_type is pinned by the existing tests: distances above max/2 are outside the theorems' guards.",
       "Coq proof (iterator algebra through a C++ integer model) + differential correspondence + expression-level source translator (clang AST -> Coq terms, theorems about the regenerated terms)")
 claim("C13", "proof",
@@ -138,9 +138,9 @@ claim("C16", "proof",
       "in BOTH implementations (pre-C++20 operators and operator<=>) equal the documented order for all 11 primitive types "
       "and all values incl. NaN/inf (axiom-free IEEE comparison on bit patterns, cross-checked against Flocq); the 33 "
       "generator default literals denote the SBE defaults; explicit integer attribute texts are reproduced exactly. "
-      "Correspondence: 22 built-in + 79 generated types, full boundary cross product, C++11/17/20, 37k static_asserts. Translator: the default min/max/null literal maps of types_compiler.hpp and the SBEPP_BUILT_IN_IMPL invocations of sbepp.hpp are regenerated into Coq on every run and proved to denote the SBE defaults (C16_source_*).",
+      "Correspondence: 22 built-in + 79 generated types, full boundary cross product, C++11/17/20, 37k static_asserts. Translator: the default min/max/null literal maps of types_compiler.hpp and the SBEPP_BUILT_IN_IMPL invocations of sbepp.hpp are regenerated into Coq on every run and proved to denote the SBE defaults (C16_source_*). SOURCE TRANSLATOR (harness/srcexprs.py -> coq/SrcExprs.v, regenerated on every run from clang's typed AST of /repo's optional_base<T, Derived> for the eight integer types, every call inlined, Derived::min/max/null_value() arbitrary): has_value, in_range and the six pre-C++20 comparison operators follow the documented rules for all values (C16_source_optional_follows_documented_rules, C16_documented_rules_spelled_out).",
       TB + " Decimal floating-point attribute literals are checked by the differential run only.",
-      "Coq proof (order/null algebra incl. IEEE-754 compare on bit patterns; finite literal tables by vm_compute) + differential correspondence")
+      "Coq proof (order/null algebra incl. IEEE-754 compare on bit patterns; finite literal tables by vm_compute) + differential correspondence + expression-level source translator (clang AST -> Coq terms, theorems about the regenerated terms)")
 claim("C17", "proof",
       "Theorems (Properties_C17.v, 5): header/dimension composite members are laid out by the SBE rule inside the composite "
       "for any order, custom offsets and extra members; the filler writes exactly Wire.put_fills on the header slice "
@@ -179,7 +179,7 @@ claim("C10", "proof",
       "outcome (value or handler) of every op on images truncated around every header/dimension/length/field boundary and "
       "at sampled lengths, the view ending on a PROT_NONE page, must be the outcome of the checked model; the read-based "
       "Msg.v expectation is kept as a cross-check; never a fault; complete image => no handler; plus hostile <data> "
-      "lengths steering the next view past the end. Hostile (smaller) wire blockLength values under plain-cursor traversal of truncated buffers are part of the sweep. SOURCE TRANSLATOR (harness/srcexprs.py -> coq/SrcExprs.v, regenerated on every run from clang's typed AST of /repo's sbepp.hpp): detail::is_within_size and the SBEPP_SIZE_CHECK macro as clang expands it are proved equal to the model's size_check for all pointers/offsets/sizes, and the handler stays silent exactly when [begin+offset, begin+offset+size) lies inside [begin, end), wherever the view starts (C10_source_size_check_macro, C10_source_size_check_is_the_model, C10_source_is_within_size).",
+      "lengths steering the next view past the end. Hostile (smaller) wire blockLength values under plain-cursor traversal of truncated buffers are part of the sweep. SOURCE TRANSLATOR (harness/srcexprs.py -> coq/SrcExprs.v, regenerated on every run from clang's typed AST of /repo's sbepp.hpp): detail::is_within_size and the SBEPP_SIZE_CHECK macro as clang expands it are proved equal to the model's size_check for all pointers/offsets/sizes, and the handler stays silent exactly when [begin+offset, begin+offset+size) lies inside [begin, end), wherever the view starts (C10_source_size_check_macro, C10_source_size_check_is_the_model, C10_source_is_within_size). Container operations on <data> views shorter than their length prefix says (view ending inside the prefix, or inside the payload while the prefix already holds the length being assigned) are judged against the Dyn.v model of the code with its size checks (cases shared with the C13 check).",
       TB + " Partial: that CheckedAccess.v transcribes sbepp.hpp's checks is tied by the sweep (exact agreement of "
       "value/handler at every truncation point), not proved against the C++ text; cursor traversal keeps the read-based "
       "expectation; container mutators are covered by C13/C14.",
